@@ -311,7 +311,12 @@ def stream_fill_rule(ctx, r1):
                     if any(a[0] == "variant" and a[2] in ("Break", "Err") and t_ for (a, t_) in fs):
                         continue
                     exits_seen += 1
-                    if not any(a[0] == "eq" and t_ and "0" in (show(a[1]), show(a[2])) and re.search(r"count|read", show(a[1]) + show(a[2])) for (a, t_) in fs):
+                    msl = Slicer(m5.body)
+
+                    def from_read(e_):
+                        # the compared value is the count the read returned (whatever the local is called)
+                        return any(z_.startswith("call:") and re.search(r"::read$", z_) for z_ in msl.sources(e_, control=False))
+                    if not any(a[0] == "eq" and t_ and ((show(a[1]) == "0" and from_read(a[2])) or (show(a[2]) == "0" and from_read(a[1]))) for (a, t_) in fs):
                         okm = False
     if okm and exits_seen:
         r1.ok(key, "digest loop left only on count == 0", loc(m5.sp))
